@@ -281,7 +281,7 @@ def atoms : List Obj := [.int 1, .int 2, nmA, nmB, strS, .null, .bool true, .rea
 def genAtom (r : Rng) : Obj × Rng := r.pick atoms
 
 /-- a random object of bounded depth over ids 1..4 (references may be undefined or cyclic) -/
-def genObj : Nat → Rng → Obj × Rng
+partial def genObj : Nat → Rng → Obj × Rng
   | 0, r =>
     let (k, r) := r.nat 5
     if k == 0 then let (i, r) := r.nat 5; (.ref (i + 1) 0, r) else genAtom r
@@ -318,7 +318,7 @@ def genOpt (r : Rng) : KeySpec × Rng :=
   (if k < 3 then .required else if k < 5 then .optional else .forbidden, r)
 
 /-- a random check of bounded depth; `names` are the names it may refer to -/
-def genChk (names : List String) : Nat → Rng → Chk × Rng
+partial def genChk (names : List String) : Nat → Rng → Chk × Rng
   | 0, r =>
     let (a, r) := genAttr r
     let (k, r) := r.nat 8
@@ -363,7 +363,7 @@ def genChk (names : List String) : Nat → Rng → Chk × Rng
       (.disj a (mkAlts cs), r)
 
 /-- an object built to FIT the check (mostly conforming); may allocate indirect objects in the graph -/
-def fit (ctx : Ctx) : Nat → Chk → Graph × Rng → Obj × (Graph × Rng)
+partial def fit (ctx : Ctx) : Nat → Chk → Graph × Rng → Obj × (Graph × Rng)
   | 0, _, (g, r) => let (x, r) := genAtom r; (x, (g, r))
   | d+1, c, (g, r) =>
     match resolve ctx c with
